@@ -314,6 +314,14 @@ theorem C17_blocked_restore (s : Server) (b : Backup) (pq pr : Bool) (h : (pq &&
       cases s; simp_all
   · simp [hc]
 
+/-- A handle that was closed (or whose client is uninstalled) sends nothing: the query fails locally and the whole
+state is unchanged. -/
+theorem C17_inactive_handle_no_traffic (st : State) (h : Nat) (hd : Handle) (q : Sql) (hh : st.handles[h]? = some hd)
+    (hi : hd.active = false ∨ st.clientInstalled hd.host = false) : st.handleQuery h q = (st, none, false) := by
+  unfold State.handleQuery
+  rw [hh]
+  rcases hi with hi | hi <;> simp [hi]
+
 /-! ## 6. Capacity boundary and passwords -/
 
 /-- At the session limit a further (correctly authenticated) connect is refused with 500 and marks the service
@@ -586,6 +594,30 @@ theorem apply_conns_nonrecv (s : Server) (e : SrvEv) (h : ∀ src p, e ≠ .recv
   | powerOn => exact ⟨(power_frame s).1, (power_frame s).2.1⟩
   | powerOff => exact ⟨(power_frame s).2.2.2.1, (power_frame s).2.2.2.2.1⟩
   | tick b t pq pr => exact ⟨(serverTick_frame s b t pq pr).1, (serverTick_frame s b t pq pr).2.1⟩
+
+/-- **Lifecycle, power, fix, backup, restore and ticks never touch the connection table**: stop/start/pause/resume/
+restart/disable/enable/fix/compromise requests, node power events, file damage, backups, restores and ticks leave the
+table and the id counter exactly as they are (so an id issued before a stop or a power cycle is valid after it, and
+none appears or disappears by itself). -/
+theorem C17_table_changed_only_by_traffic (s : Server) (e : SrvEv) (h : ∀ src p, e ≠ .recv src p) :
+    (e.apply s).conns = s.conns ∧ (e.apply s).nextId = s.nextId := apply_conns_nonrecv s e h
+
+/-- The tick that completes a fix makes the service GOOD and attempts the restore: afterwards the file is what a
+successful restore yields, or — when the restore fails — what it was. -/
+theorem C17_fix_completion (s : Server) (b : Backup) (pq pr : Bool) (hf : s.health = .fixing) (hc : s.fixCd ≤ 1) :
+    (s.tickFix b pq pr).health = .good ∧
+    ((restoreBackup { s with health := .good, fixCd := 0 } b pq pr).2 = false → (s.tickFix b pq pr).file = s.file) := by
+  unfold Server.tickFix
+  simp only [hf, hc, if_true]
+  constructor
+  · cases hr : (restoreBackup { s with health := .good, fixCd := 0 } b pq pr).2 with
+    | true =>
+      obtain ⟨h, _, hg, _⟩ := C17_restore_result _ b pq pr hr
+      exact hg
+    | false =>
+      rw [C17_failed_restore_changes_nothing _ b pq pr hr]
+  · intro hr
+    rw [C17_failed_restore_changes_nothing _ b pq pr hr]
 
 /-- `recv` of a query never touches the table; of a disconnect only shrinks it; of a connect appends at most the
 fresh id. -/
